@@ -108,7 +108,10 @@ def grid_for(ix, n_axes):
     cmodel = Model("boundary-coordinates", {"__getitem__": cget, "__iter__": lambda: list(coords), "__unpack__": lambda n: list(coords)})
     g._attrs["_boundary_coordinates"] = lambda axis=None, upper=None: cmodel
     g._attrs["_bc_coord_syms"] = coords
-    g._attrs["c"] = Model("coords", {"_axes_alt_repl": {}})
+    # the coordinate system of the model has one more (symmetric) axis than the grid, inserted after the first one -- like
+    # (r, phi, z) for the (r, z) axes of cylindrical grids: the boundary machinery works in the order of the *grid* axes, and
+    # code that translates an axis into coordinate-system order gets a different index in this model
+    g._attrs["c"] = Model("coords", {"_axes_alt_repl": {}, "axes": [g._attrs["axes"][0], "sym", *g._attrs["axes"][1:]], "dim": n_axes + 1})
     return g
 
 
